@@ -15,6 +15,9 @@ TRUSTED = ['pyvc (VC generator, Python semantics of the stated subset)', 'z3 5.1
            'against the real Python evaluator and, for a subset, the compiled engine)',
            'textbook closed forms of logit / nested / cross-nested / ordered models written in bounded/c05_tv.py']
 ASSUMPTIONS = ['A-REAL: floats are mathematical reals (native values are compared with 1e-8 relative / 1e-11 absolute tolerance)',
+               'LIBSPEC: numpy.exp / numpy.log are uninterpreted over the reals with exp > 0 and log(0) = -inf (pyvc/libext/c05_loginf.py)',
+               'Expression.get_value of an operand is a pure function of the operand (abstract contract, trusted, not verified here)',
+               'LogLogit: utilities and availabilities are given for the same alternatives (checked by LogLogit.audit)',
                'availabilities take the values 0 and 1',
                'nest and scale parameters >= 1, allocation parameters in (0, 1]',
                "the engine's normal cdf is an approximation (absolute error about 3e-11): ordered probit through the engine is "
